@@ -67,6 +67,28 @@ UNIT_FUNCS = [('ABS', 'n'), ('CINT', 'n'), ('CLNG', 'n'), ('INT', 'n'), ('STR$',
               ('INSTR3', 'nss'), ('STRING$', 'nc'), ('STRING$s', 'ns')]
 
 
+_COMBOS = []
+
+
+def unit_combos():
+    """Every binary operator x ordered operand type pair, and every builtin x numeric argument type, once."""
+    if not _COMBOS:
+        for op in UNIT_BIN:
+            for ta in '%&!#':
+                for tb in '%&!#':
+                    if op == '/' and '&' in (ta, tb):
+                        continue          # LONG division result type is a dialect grey zone
+                    _COMBOS.append(('bin', op, ta, tb))
+        for op in ['+', '=', '<>', '<', '>', '<=', '>=']:
+            _COMBOS.append(('bin', op, '$', '$'))
+        for f, sig in UNIT_FUNCS:
+            for nt in ('%&!#' if ('n' in sig or 'i' in sig) else '%'):
+                _COMBOS.append(('fn', f, sig, nt))
+        import random as _r
+        _r.Random(12345).shuffle(_COMBOS)
+    return _COMBOS
+
+
 def unit_program(r, k):
     """A small IR program: operands in variables of every type, one operator or builtin per statement, used both as a
     PRINT argument and in typed contexts (assignment to every numeric type, argument of a SUB, array index)."""
@@ -85,25 +107,20 @@ def unit_program(r, k):
             vars_.setdefault(t, []).append(('var', nm, t))
     main.append(['dim', 'dim', 'zuarr', '&', [(None, ('lit', '%', 5))]])
     stmts = []
-    for _ in range(6):
-        kind = r.random()
-        if kind < 0.55:
-            op = r.choice(UNIT_BIN)
-            ta, tb = r.choice('%&!#'), r.choice('%&!#')
-            if op == '/' and '&' in (ta, tb):
-                ta = tb = r.choice('%!#')          # LONG division result type is a dialect grey zone
+    combos = unit_combos()
+    for j_ in range(6):
+        kind, a1, a2, a3 = combos[(k * 6 + j_) % len(combos)]
+        if kind == 'bin':
+            op, ta, tb = a1, a2, a3
             e = ('bin', op, r.choice(vars_[ta]), r.choice(vars_[tb]))
-        elif kind < 0.65:
-            op = r.choice(['+', '=', '<>', '<', '>', '<=', '>='])
-            e = ('bin', op, r.choice(vars_['$']), r.choice(vars_['$']))
         else:
-            f, sig = r.choice(UNIT_FUNCS)
+            f, sig, nt = a1, a2, a3
             args = []
             for ch in sig:
                 if ch == 'n':
-                    args.append(r.choice(vars_[r.choice('%&!#')]))
+                    args.append(r.choice(vars_[nt]))
                 elif ch == 'i':
-                    args.append(r.choice(vars_[r.choice('%&')]))
+                    args.append(r.choice(vars_[nt if nt in '%&' else '%']))
                 elif ch == 's':
                     args.append(r.choice(vars_['$']))
                 elif ch == 'c':
@@ -112,16 +129,15 @@ def unit_program(r, k):
                 e = ('un', 'NOT', args[0])
             elif f == 'NEG':
                 e = ('un', '-', args[0])
-            elif f in ('LEFT$', 'RIGHT$', 'MID$'):
-                e = ('bcall', f, [args[0], ('bin', 'MOD', ('bcall', 'ABS', [args[1]]), ('lit', '%', 9))] if False else
-                     [args[0], ('lit', '%', r.choice([0, 1, 2, 5, 20]))] if f != 'MID$' else [args[0], ('lit', '%', r.choice([1, 2, 5, 20]))])
+            elif f in ('LEFT$', 'RIGHT$'):
+                e = ('bcall', f, [args[0], ('lit', '%', r.choice([0, 1, 2, 5, 20]))])
+            elif f == 'MID$':
+                e = ('bcall', 'MID$', [args[0], ('lit', '%', r.choice([1, 2, 5, 20]))])
             elif f == 'MID$3':
                 e = ('bcall', 'MID$', [args[0], ('lit', '%', r.choice([1, 2, 4])), ('lit', '%', r.choice([0, 1, 3, 20]))])
             elif f == 'INSTR3':
                 e = ('bcall', 'INSTR', [('lit', '%', r.choice([1, 2, 3])), args[1], args[2]])
-            elif f == 'STRING$':
-                e = ('bcall', 'STRING$', [('lit', '%', r.choice([0, 1, 3])), args[1]])
-            elif f == 'STRING$s':
+            elif f in ('STRING$', 'STRING$s'):
                 e = ('bcall', 'STRING$', [('lit', '%', r.choice([0, 1, 3])), args[1]])
             else:
                 e = ('bcall', f, args)
